@@ -1533,8 +1533,14 @@ func (w *vpWorld) monitorCtxLink(n int, sc Scope, from context.Context) {
 	if from.Err() != nil {
 		if sc.Context().Err() == nil {
 			w.fail("C18,C13", "scope s%d: the context it was created from is done, its own context is not", n)
-		} else if c := context.Cause(from); c != context.Cause(sc.Context()) {
-			w.fail("C18", "scope s%d: cancellation cause %v of the context it was created from is not the cause %v its own context reports", n, c, context.Cause(sc.Context()))
+		} else if c, own := context.Cause(from), context.Cause(sc.Context()); c != own {
+			// a nested scope may be closed by its parent's cascade (plain cancel) while the cancellation of the shared
+			// context is still being propagated child by child: context.Canceled is then a legitimate cause. A scope
+			// without a parent scope is only ever ended by the propagation itself.
+			nested := vpPtrField(sc, "parentScope") != nil
+			if !(nested && own == context.Canceled) {
+				w.fail("C18", "scope s%d: cancellation cause %v of the context it was created from is not the cause %v its own context reports", n, c, own)
+			}
 		}
 	}
 }
